@@ -304,6 +304,11 @@ class ContDomain(Domain):
     def decide(self, ex, cond, value, st, fr):
         return None
 
+    def step(self, v, d):
+        """++p / --p on a pointer into a block"""
+        if isinstance(v, Ptr) and isinstance(v.off, Lin): return Ptr(v.base, v.off + Lin.const(d))
+        return None
+
     # ---- element / memory operations ---------------------------------------------------------------------------------------------
     def c_event(self, st, node, *payload):
         st.events.append(('c', node, payload))
@@ -822,16 +827,18 @@ class ContDomain(Domain):
             if loc[0] == 'l' and loc[1] == fr.id:
                 v1 = st.store.get(loc); l1, l2 = as_lin(v1) if isinstance(v1, (Lin, int)) else None, as_lin(v2) if isinstance(v2, (Lin, int)) else None
                 if l1 is not None and l2 is not None and (l2 - l1) == Lin.const(1): subst[loc] = l1
+                # a pointer stepped by one element per iteration (`T *dst = m_array; … construct_at(dst++, e)`)
+                if isinstance(v1, Ptr) and isinstance(v2, Ptr) and v1.base == v2.base and isinstance(v1.off, Lin) and isinstance(v2.off, Lin) and (v2.off - v1.off) == Lin.const(1): subst[loc] = v1
         if subst:
             # re-evaluate with counter = start + k
             st3 = st.clone()
-            for loc, l1 in subst.items(): st3.store[loc] = l1 + Lin.sym(isym)
+            for loc, l1 in subst.items(): st3.store[loc] = (Ptr(l1.base, l1.off + Lin.sym(isym)) if isinstance(l1, Ptr) else l1 + Lin.sym(isym))
             res = self._body_effects(ex, body, st3, fr, {var['decl']: bind})
             if res is None: return None
             _, evs = res
         out = self._ranges_from(evs, isym, Lin.const(0), count, st, loop)
         if out is None: return None
-        for loc, l1 in subst.items(): st.store[loc] = l1 + count
+        for loc, l1 in subst.items(): st.store[loc] = (Ptr(l1.base, l1.off + count) if isinstance(l1, Ptr) else l1 + count)
         return ('range-for', repr(count))
 
 
